@@ -79,11 +79,16 @@ def judge(case, ctx, want_ratio=False):
     ctx.held(key=(alg, case.get("iterations"), k, tuple(vals)), nontrivial=mx != opt_max, cls=f"{alg}/{case['cls']}",
              sample={"case": {kk: v for kk, v in case.items() if kk != "values"} | {"values": vals[:40]}, "sums": s[:10], "opt_max": opt_max})
     ctx.counters["alg:" + alg] += 1
+    if want_ratio == "min":
+        # how close the smallest sum comes to violating its guarantee: OPT_min / min (larger = worse)
+        return F(opt_min, mn) if (opt_min and mn) else F(0)
     return F(mx, opt_max) if opt_max else None
 
 
 def draw(rng, alg):
-    kind = rng.choice(["small", "small", "small", "planted", "planted", "lpt_tight", "killer", "ties", "kgtn"])
+    kind = rng.choice(["small", "small", "small", "planted", "planted", "lpt_tight", "killer", "ties", "kgtn", "tinyvalues", "tinyvalues", "tinyvalues"])
+    if alg == "greedy" and rng.random() < 0.4:
+        kind = "tinyvalues"            # greedy alone has a guarantee on its SMALLEST sum; its near-tight instances are of this shape
     case = {"kind": "partition", "alg": alg, "pres": "list", "pres_seed": 0}
     if alg == "multifit":
         case["iterations"] = rng.choice([1, 2, 3, 5, 10, 20])
@@ -93,6 +98,13 @@ def draw(rng, alg):
         vals = gen.part_values(rng, rng.choice(["small", "ties", "zeros", "powers", "onehuge", "equal", "bignear"]) if kind == "small" else "ties", n, k)
         vals = gen.arrange(rng, vals, rng.choice(gen.ORDERS))
         case.update(k=k, values=vals, cls=kind)
+    elif kind == "tinyvalues":
+        # many items over a tiny value range (near-tight instances for the guarantees are of this shape), more than 2k+1 items, in every arrival order
+        k = rng.choice([2, 3, 3, 4])
+        n = rng.randint(2 * k + 2, 12 if k <= 3 else 11)
+        hi = rng.choice([3, 4, 4, 5])
+        vals = gen.arrange(rng, [rng.randint(1, hi) for _ in range(n)], rng.choice(["ascending", "ascending", "descending", "random"]))
+        case.update(k=k, values=vals, cls="tinyvalues")
     elif kind == "kgtn":
         k = rng.randint(3, 12)
         n = rng.randint(1, min(k - 1, 6))
@@ -115,25 +127,29 @@ def draw(rng, alg):
     return case
 
 
-def climb(rng, alg, ctx, steps=25):
+def climb(rng, alg, ctx, steps=40):
     """W-climb: hill-climb the observed ratio max/OPT_max from a random start (exhaustive optimum, n <= 8, k <= 3)."""
-    k = rng.choice([2, 3])
-    n = rng.randint(k + 1, 8)
-    vals = [rng.randint(1, 20) for _ in range(n)]
+    k = rng.choice([2, 3, 3, 4])
+    n = rng.randint(k + 1, 10 if k <= 3 else 9)
+    vals = [rng.randint(1, rng.choice([5, 20])) for _ in range(n)]
     if rng.random() < 0.5:
         vals.sort()
     case = {"kind": "partition", "alg": alg, "k": k, "values": vals, "cls": "climb", "pres": "list", "pres_seed": 0}
     if alg == "multifit":
         case["iterations"] = rng.choice([1, 3, 10])
-    best = judge(case, ctx)
+    which = "min" if (alg == "greedy" and rng.random() < 0.5) else "max"      # greedy also has a guarantee on its SMALLEST sum
+    best = judge(case, ctx, want_ratio=which)
     for _ in range(steps):
         if best is None:
             return
         v2 = list(case["values"])
         i = rng.randrange(n)
         v2[i] = max(1, v2[i] + rng.choice([-3, -2, -1, 1, 2, 3]))
+        if rng.random() < 0.2:
+            j = rng.randrange(n)
+            v2[i], v2[j] = v2[j], v2[i]          # order moves too: a heuristic that does not fully sort is order-sensitive
         c2 = dict(case, values=v2)
-        r2 = judge(c2, ctx)
+        r2 = judge(c2, ctx, want_ratio=which)
         if r2 is not None and r2 >= best:
             if r2 > best:
                 ctx.counters["climb_improvements"] += 1
